@@ -35,171 +35,198 @@ GEN = os.path.join(common.LEAN, 'NumqiModel', 'Generated', 'Thresholds.lean')
 # ---------------------------------------------------------------------------------------------------------------
 # translator: comparison operators, default tolerances and guard structure  ->  Generated/Thresholds.lean
 # ---------------------------------------------------------------------------------------------------------------
-def _tree(rel):
-    return ast.parse(open(os.path.join(common.REPO, 'python', 'numqi', rel)).read())
+# The extraction is BEHAVIOURAL: nothing is read from the source text.  Public functions are resolved through the package
+# (`numqi.entangle.<name>`, so moves / re-exports / renamed locals / closures turned into helpers do not matter), defaults come from
+# `inspect.signature`, comparison operators, shift signs and guards are determined by evaluating the real verdict functions on exactly
+# representable inputs on both sides of each boundary.  Anything that cannot be determined becomes `other` / 0 / false (the corresponding Lean
+# obligation then fails and the failing-input search runs); the extraction itself never raises.
+class HarnessInternal(Exception):
+    """an exception raised by harness code itself (not inside a call into numqi): never a failing input"""
 
 
-def _func(tree, name):
-    for n in ast.walk(tree):
-        if isinstance(n, ast.FunctionDef) and n.name == name:
-            return n
-    raise KeyError(name)
+def is_impl_exception(e):
+    """True iff the traceback passes through numqi code (the exception was raised by, or below, the implementation)"""
+    import traceback
+    for fr in traceback.extract_tb(e.__traceback__):
+        fn = fr.filename.replace(os.sep, '/')
+        if '/numqi/' in fn and '/verif/harness/' not in fn:
+            return True
+    return False
 
 
-def _default(fn, arg):
-    """default value of a keyword/positional parameter as an exact decimal fraction (None if absent / not a number)"""
-    a = fn.args
-    pos = a.posonlyargs + a.args
-    defaults = [None] * (len(pos) - len(a.defaults)) + list(a.defaults)
-    for p, d in list(zip(pos, defaults)) + list(zip(a.kwonlyargs, a.kw_defaults)):
-        if p.arg == arg and d is not None:
-            try:
-                v = ast.literal_eval(d)
-            except Exception:
-                return None
-            if isinstance(v, bool) or not isinstance(v, (int, float)):
-                return None
-            return Fraction(repr(v)) if isinstance(v, float) else Fraction(v)
-    return None
+def _sig_default(fn, name):
+    import inspect
+    try:
+        v = inspect.signature(fn).parameters[name].default
+    except Exception:
+        return None
+    if isinstance(v, bool) or not isinstance(v, (int, float)):
+        return None
+    return Fraction(repr(float(v))) if isinstance(v, float) else Fraction(v)
 
 
-def _coeff_of(expr, name):
-    """expr == name -> 1 ; expr == -name -> -1 ; otherwise 0 (unrecognised)"""
-    if isinstance(expr, ast.Name) and expr.id == name:
-        return 1
-    if isinstance(expr, ast.UnaryOp) and isinstance(expr.op, ast.USub) and isinstance(expr.operand, ast.Name) and expr.operand.id == name:
-        return -1
-    return 0
+def _try(f, default=None):
+    try:
+        with np.errstate(all='ignore'):
+            return f()
+    except Exception:
+        return default
 
 
-def _psd_call_shift(fn, name='eps'):
-    """coefficient k in `is_positive_semi_definite(..., shift=k*eps)` (0 if not of that form or no such call)"""
-    for n in ast.walk(fn):
-        if isinstance(n, ast.Call) and ast.unparse(n.func).endswith('is_positive_semi_definite'):
-            for kw in n.keywords:
-                if kw.arg == 'shift':
-                    return _coeff_of(kw.value, name)
-            if len(n.args) >= 2:
-                return _coeff_of(n.args[1], name)
-            return 0
-    return 0
-
-
-CMP = {ast.Lt: 'lt', ast.LtE: 'le', ast.Gt: 'gt', ast.GtE: 'ge'}
-
-
-def _cmp(node):
-    if isinstance(node, ast.Compare) and len(node.ops) == 1:
-        return CMP.get(type(node.ops[0]), 'other')
+def _op_from_truth(f, pairs):
+    """the comparison `x <op> y` realised by the Boolean function f(x, y) on the grid `pairs`; 'other' if none of lt/le/gt/ge fits"""
+    obs = [_try(lambda: bool(f(x, y))) for x, y in pairs]
+    if any(o is None for o in obs):
+        return 'other'
+    for name, g in (('lt', lambda x, y: x < y), ('le', lambda x, y: x <= y), ('gt', lambda x, y: x > y), ('ge', lambda x, y: x >= y)):
+        if obs == [g(x, y) for x, y in pairs]:
+            return name
     return 'other'
 
 
+@contextlib.contextmanager
+def stub_global(fns, name, value):
+    """replace the module-level name `name` in the globals of the given functions (follows a function to whatever module it lives in)"""
+    import inspect
+    saved = []
+    for fn in fns:
+        g = getattr(inspect.unwrap(fn), '__globals__', None)
+        if g is not None and name in g and all(g is not s_[0] for s_ in saved):
+            saved.append((g, g[name])); g[name] = value
+    try:
+        yield len(saved)
+    finally:
+        for g, old in saved:
+            g[name] = old
+
+
+def py_eof(zero, clamp, guard, c):
+    """Python twin of NumqiModel/Decision.lean `eof2qubit` at given flags (used only to decide `recognised`)"""
+    c = np.float64(c)
+    if zero and c == 0:
+        return 0.0
+    x = 1 - c * c
+    if clamp:
+        x = x if x > 0 else 0.0
+    t = (1 + np.sqrt(x)) / 2
+    ret = -t * np.log(t)
+    if (not guard) or t < 1:
+        ret = ret - (1 - t) * np.log(1 - t)
+    return float(ret)
+
+
+def py_gme(clamp, c):
+    c = np.float64(c)
+    x = 1 - c * c
+    if clamp:
+        x = x if x > 0 else 0.0
+    return float((1 - np.sqrt(x)) / 2)
+
+
+def _same_float(a, b):
+    if a is None or b is None:
+        return False
+    return (np.isnan(a) and np.isnan(b)) or a == b
+
+
 def extract_thresholds():
-    """read the decision layer of the working tree; every field has an `unrecognised` fallback that makes a Lean obligation fail"""
-    T = {}
-    ppt = _tree('entangle/ppt.py')
-    misc = _tree('entangle/_misc.py')
-    eof = _tree('entangle/eof.py')
-    meas = _tree('entangle/measure.py')
-    utils = _tree('utils.py')
-    # --- is_ppt
-    f = _func(ppt, 'is_ppt')
-    T['isPptEpsDefault'] = _default(f, 'eps')
-    T['isPptShiftCoeff'] = _psd_call_shift(f)
-    # --- check_reduction_witness
-    f = _func(misc, 'check_reduction_witness')
-    T['reductionEpsDefault'] = _default(f, 'eps')
-    T['reductionShiftCoeff'] = _psd_call_shift(f)
-    # --- utils.is_positive_semi_definite:  np0 = np0 + shift*np.eye(..) ; try cholesky -> True / except -> False
-    f = _func(utils, 'is_positive_semi_definite')
-    coeff, chol = 0, False
-    for n in ast.walk(f):
-        if isinstance(n, ast.Assign) and isinstance(n.value, ast.BinOp) and isinstance(n.value.op, (ast.Add, ast.Sub)):
-            l, r = n.value.left, n.value.right
-            if isinstance(l, ast.Name) and l.id == 'np0' and ast.unparse(r).replace(' ', '') == 'shift*np.eye(np0.shape[0])':
-                coeff = 1 if isinstance(n.value.op, ast.Add) else -1
-        if isinstance(n, ast.Try):
-            body = [ast.unparse(s).replace(' ', '') for s in n.body]
-            hand = [ast.unparse(s).replace(' ', '') for h in n.handlers for s in h.body]
-            if body == ['np.linalg.cholesky(np0)', 'ret=True'] and hand == ['ret=False']:
-                chol = True
-    T['psdShiftCoeff'] = coeff
-    T['psdCholesky'] = chol
-    # --- is_generalized_ppt:  tag = all(x[2] <= 1+threshold for x in ret) ; break when ret[-1][2] > 1+threshold
-    f = _func(ppt, 'is_generalized_ppt')
-    T['gpptThresholdDefault'] = _default(f, 'threshold')
-    op, rhs, brk = 'other', False, 'other'
-    for n in ast.walk(f):
-        if isinstance(n, ast.Assign) and ast.unparse(n.targets[0]) == 'tag' and isinstance(n.value, ast.Call) and ast.unparse(n.value.func) == 'all':
-            g = n.value.args[0]
-            if isinstance(g, ast.GeneratorExp) and isinstance(g.elt, ast.Compare) and ast.unparse(g.elt.left) == 'x[2]':
-                op = _cmp(g.elt)
-                rhs = ast.unparse(g.elt.comparators[0]).replace(' ', '') == '1+threshold'
-        if isinstance(n, ast.If) and any(isinstance(s, ast.Break) for s in n.body):
-            for c in ast.walk(n.test):
-                if isinstance(c, ast.Compare) and ast.unparse(c.left) == 'ret[-1][2]' and ast.unparse(c.comparators[0]).replace(' ', '') == '1+threshold':
-                    brk = _cmp(c)
-    T['gpptAcceptOp'] = op
-    T['gpptRhsOnePlusThreshold'] = rhs
-    T['gpptBreakOp'] = brk
-    # --- check_swap_witness:  ret = tmp0 > eps
-    f = _func(misc, 'check_swap_witness')
-    T['swapEpsDefault'] = _default(f, 'eps')
-    op = 'other'
-    for n in ast.walk(f):
-        if isinstance(n, ast.Assign) and ast.unparse(n.targets[0]) == 'ret' and isinstance(n.value, ast.Compare):
-            if ast.unparse(n.value.left) == 'tmp0' and ast.unparse(n.value.comparators[0]) == 'eps':
-                op = _cmp(n.value)
-    T['swapOp'] = op
-    # --- get_eof_2qubit guard structure
-    f = _func(eof, 'get_eof_2qubit')
-    zero, clamp, guard, ok = False, False, False, False
-    for n in f.body:
-        if isinstance(n, ast.If):
-            zero = ast.unparse(n.test).replace(' ', '') == 'tmp0==0' and [ast.unparse(s).replace(' ', '') for s in n.body] == ['ret=0']
-            els = [ast.unparse(s).replace(' ', '') for s in n.orelse]
-            t_clamp = 'tmp1=(1+np.sqrt(max(0,1-tmp0*tmp0)))/2'
-            t_raw = 'tmp1=(1+np.sqrt(1-tmp0*tmp0))/2'
-            first = 'ret=-tmp1*np.log(tmp1)'
-            second = 'ret=ret-(1-tmp1)*np.log(1-tmp1)'
-            if len(els) >= 2 and els[0] in (t_clamp, t_raw):
-                clamp = els[0] == t_clamp
-                rest = n.orelse[1:]
-                u = els[1:]
-                if (len(rest) == 2 and u[0] == first and isinstance(rest[1], ast.If) and not rest[1].orelse
-                        and ast.unparse(rest[1].test).replace(' ', '') == 'tmp1<1'
-                        and [ast.unparse(s).replace(' ', '') for s in rest[1].body] == [second]):
-                    guard, ok = True, True
-                elif u == [first, second] or u == ['ret=-tmp1*np.log(tmp1)-(1-tmp1)*np.log(1-tmp1)']:
-                    guard, ok = False, True
-    T['eofZeroShortcut'] = zero
-    T['eofClampSqrtArg'] = clamp
-    T['eofSecondTermGuardLt1'] = guard
-    T['eofRecognised'] = ok
-    # --- get_gme_2qubit
-    f = _func(meas, 'get_gme_2qubit')
-    gclamp, gok = False, False
-    for n in f.body:
-        if isinstance(n, ast.Assign) and ast.unparse(n.targets[0]) == 'ret':
-            s = ast.unparse(n.value).replace(' ', '')
-            if s == '(1-np.sqrt(max(0,1-tmp0*tmp0)))/2':
-                gclamp, gok = True, True
-            elif s == '(1-np.sqrt(1-tmp0*tmp0))/2':
-                gclamp, gok = False, True
-    T['gmeClampSqrtArg'] = gclamp
-    T['gmeRecognised'] = gok
-    # --- get_concurrence_pure:  ret = np.sqrt(max(0, 2*(1-tmp2)))
-    f = _func(eof, 'get_concurrence_pure')
-    pclamp, pok = False, False
-    for n in ast.walk(f):
-        if isinstance(n, ast.Assign) and ast.unparse(n.targets[0]) == 'ret':
-            s = ast.unparse(n.value).replace(' ', '')
-            if s == 'np.sqrt(max(0,2*(1-tmp2)))':
-                pclamp, pok = True, True
-            elif s == 'np.sqrt(2*(1-tmp2))':
-                pclamp, pok = False, True
-    T['concPureClampSqrtArg'] = pclamp
-    T['concPureRecognised'] = pok
+    T = dict(isPptEpsDefault=None, isPptShiftCoeff=0, reductionEpsDefault=None, reductionShiftCoeff=0, psdShiftCoeff=0, psdCholesky=False,
+             gpptThresholdDefault=None, gpptAcceptOp='other', gpptRhsOnePlusThreshold=False, gpptBreakOp='other', swapEpsDefault=None, swapOp='other',
+             eofZeroShortcut=False, eofClampSqrtArg=False, eofSecondTermGuardLt1=False, eofRecognised=False, gmeClampSqrtArg=False,
+             gmeRecognised=False, concPureClampSqrtArg=False, concPureRecognised=False)
+    try:
+        import numqi
+        E = numqi.entangle
+        psd = numqi.utils.is_positive_semi_definite
+        Z1 = np.zeros((1, 1)); I1 = np.ones((1, 1))
+        # utils.is_positive_semi_definite(M, shift): Cholesky of M + k*shift*1 (strictly positive definite)
+        up, dn = _try(lambda: bool(psd(Z1, shift=0.5))), _try(lambda: bool(psd(Z1, shift=-0.5)))
+        T['psdShiftCoeff'] = 1 if (up is True and dn is False) else (-1 if (up is False and dn is True) else 0)
+        T['psdCholesky'] = (_try(lambda: bool(psd(Z1, shift=0.0))) is False and _try(lambda: bool(psd(I1, shift=0.0))) is True
+                            and _try(lambda: bool(psd(-I1, shift=0.0))) is False)
+        # is_ppt / check_reduction_witness: shift = c*eps handed to the PSD test (zero matrix: accepted iff k*c*eps > 0)
+        Z4 = np.zeros((4, 4))
+        for key, f in (('isPpt', E.is_ppt), ('reduction', E.check_reduction_witness)):
+            T[key + 'EpsDefault'] = _sig_default(f, 'eps')
+            a, b = _try(lambda: bool(f(Z4, (2, 2), eps=-0.5))), _try(lambda: bool(f(Z4, (2, 2), eps=0.5)))
+            k = T['psdShiftCoeff']
+            if k != 0 and a is True and b is False:
+                T[key + 'ShiftCoeff'] = -k           # k*c*(-0.5) > 0
+            elif k != 0 and a is False and b is True:
+                T[key + 'ShiftCoeff'] = k
+        # is_generalized_ppt: verdict on single-entry matrices v*E_00 (every realignment has nuclear norm exactly |v|) as a function of (v, threshold)
+        T['gpptThresholdDefault'] = _sig_default(E.is_generalized_ppt, 'threshold')
+        def gp(v, thr, **kw):
+            M = np.zeros((4, 4)); M[0, 0] = v
+            r = E.is_generalized_ppt(M, (2, 2), threshold=thr, **kw)
+            return r[0] if isinstance(r, tuple) else r
+        grid = [(v, thr) for thr in (0.0, 0.5, 1.0) for v in (0.5, 1.0, 1.5, 2.0, 2.5)]
+        op = _op_from_truth(lambda v, y: gp(v, y - 1), [(v, 1 + thr) for v, thr in grid])
+        T['gpptAcceptOp'] = op
+        T['gpptRhsOnePlusThreshold'] = op != 'other'
+        # early exit (return_info=False) against the full evaluation (return_info=True): the break fires exactly when the final test fails
+        same = all(_try(lambda: bool(gp(v, thr)) == bool(gp(v, thr, return_info=True)), False) for v, thr in grid)
+        T['gpptBreakOp'] = {'le': 'gt', 'lt': 'ge', 'ge': 'lt', 'gt': 'le'}.get(op, 'other') if same else 'other'
+        # check_swap_witness: value of diag(x,0,0,0) is x
+        T['swapEpsDefault'] = _sig_default(E.check_swap_witness, 'eps')
+        def sw(x, e):
+            M = np.zeros((4, 4)); M[0, 0] = x
+            return E.check_swap_witness(M, eps=e)
+        T['swapOp'] = _op_from_truth(sw, [(x, e) for e in (-0.5, 0.0, 0.5) for x in (-1.0, -0.5, 0.0, 0.5, 1.0)])
+        # closed forms as functions of the concurrence: which inputs give NaN decides the guard flags; `recognised` = the model formula at those
+        # flags reproduces the implementation bit for bit on a grid
+        one = np.float64(1.0)
+        cs = [0.0, 5e-324, 1e-160, 1e-12, 1e-9, 1.0536712127723509e-08, 1.4901161193847656e-08, 3e-8, 1e-6, 1e-3, 0.1, 0.3, 0.5, 0.7071067811865476,
+              0.9, 0.999999, float(np.nextafter(one, 0)), 1.0, float(np.nextafter(one, 2)), 1.0 + 1e-12]
+        def at(fn, c):
+            with stub_global([fn], 'get_concurrence_2qubit', lambda rho, _c=c: np.float64(_c)) as n:
+                if n == 0:
+                    return None
+                return _try(lambda: float(fn(np.eye(4) / 4)))
+        ve = [at(E.get_eof_2qubit, c) for c in cs]
+        if all(v is not None for v in ve):
+            nan = lambda c: bool(np.isnan(ve[cs.index(c)]))
+            T['eofClampSqrtArg'] = not nan(1.0 + 1e-12)
+            T['eofSecondTermGuardLt1'] = not nan(1e-9)
+            T['eofZeroShortcut'] = not nan(0.0)
+            T['eofRecognised'] = all(_same_float(v, _try(lambda: py_eof(T['eofZeroShortcut'], T['eofClampSqrtArg'], T['eofSecondTermGuardLt1'], c)))
+                                     for v, c in zip(ve, cs))
+        vg = [at(E.get_gme_2qubit, c) for c in cs]
+        if all(v is not None for v in vg):
+            T['gmeClampSqrtArg'] = not bool(np.isnan(vg[cs.index(1.0 + 1e-12)]))
+            T['gmeRecognised'] = all(_same_float(v, _try(lambda: py_gme(T['gmeClampSqrtArg'], c))) for v, c in zip(vg, cs))
+        # get_concurrence_pure: product amplitudes whose reduced purity rounds above 1 (corpus witness; deterministic search as fallback)
+        wit = []
+        try:
+            import json
+            for case in json.load(open(os.path.join(common.VERIF, 'corpus', 'C13', '4bfd71c_concurrence_pure_nan.json')))['cases']:
+                wit.append(np.array([complex(*z) for z in case['psi']]).reshape(2, 2))
+        except Exception:
+            pass
+        r0 = np.random.default_rng(0)
+        while len(wit) < 6:
+            a = r0.normal(size=2) + 1j * r0.normal(size=2); b = r0.normal(size=2) + 1j * r0.normal(size=2)
+            psi = np.outer(a / np.linalg.norm(a), b / np.linalg.norm(b))
+            t = psi.conj().T @ psi
+            if np.vdot(t.reshape(-1), t.reshape(-1)).real > 1:
+                wit.append(psi)
+        vals = [_try(lambda: float(E.get_concurrence_pure(psi))) for psi in wit]
+        if all(v is not None for v in vals):
+            over = [np.vdot((p.conj().T @ p).reshape(-1), (p.conj().T @ p).reshape(-1)).real > 1 for p in wit]
+            nans = [bool(np.isnan(v)) for v, o in zip(vals, over) if o]
+            if nans and (all(nans) or not any(nans)):
+                T['concPureClampSqrtArg'] = not any(nans)
+                def py_cp(psi):
+                    t = psi.conj().T @ psi if psi.shape[0] >= psi.shape[1] else psi @ psi.conj().T
+                    x = 2 * (1 - np.vdot(t.reshape(-1), t.reshape(-1)).real)
+                    if T['concPureClampSqrtArg']:
+                        x = x if x > 0 else 0.0
+                    with np.errstate(all='ignore'):
+                        return float(np.sqrt(x))
+                extra = [np.array([[0.6, 0], [0, 0.8]], dtype=np.complex128), np.ones((2, 2), dtype=np.complex128) / 2]
+                T['concPureRecognised'] = all(_same_float(_try(lambda: float(E.get_concurrence_pure(p))), py_cp(p)) for p in wit + extra)
+    except Exception:
+        pass        # whatever could not be determined stays `unknown`: the obligations about it fail, the check goes on
     return T
 
 
@@ -279,12 +306,42 @@ DIMS_THOROUGH = DIMS_QUICK + [(4, 2), (3, 4), (2, 2, 3), (2, 2, 2, 2), (3, 3, 2)
 
 
 def guarded(f):
+    """an exception raised by (or below) the implementation is an observation `error:<type>`; an exception raised by harness code itself
+    (e.g. reading a private attribute that was renamed) is re-raised as HarnessInternal and ends up as a note, never as a failing input"""
     try:
         return f()
-    except AssertionError:
+    except HarnessInternal:
+        raise
+    except AssertionError as e:
+        if not is_impl_exception(e):
+            raise HarnessInternal(f'AssertionError in harness code: {str(e)[:100]}') from e
         return 'error:assert'
-    except Exception as e:      # any exception of the implementation is an observation, never an abort of the check
+    except Exception as e:
+        if not is_impl_exception(e):
+            raise HarnessInternal(f'{type(e).__name__} in harness code: {str(e)[:100]}') from e
         return 'error:' + type(e).__name__
+
+
+SKIP = 'harness-skip'
+
+
+def gskip(f):
+    """`guarded` for the correspondence builders: a harness-internal exception yields SKIP (the op is withdrawn, with a note)"""
+    try:
+        return guarded(f)
+    except HarnessInternal:
+        return SKIP
+
+
+def drop_skipped(ctx, triples):
+    """remove ops whose implementation side could not be obtained for harness-internal reasons"""
+    keep = [t for t in triples if not (isinstance(t[1], str) and t[1] == SKIP)]
+    n = len(triples) - len(keep)
+    if n:
+        ctx.count('harness-internal-skip', n)
+        ctx.note(f'harness-internal: {n} correspondence op(s) withdrawn (a private name / layout the capture relies on is not available); ops: '
+                 + ', '.join(sorted({t[0].split(" ")[1] for t in triples if isinstance(t[1], str) and t[1] == SKIP})))
+    return keep
 
 
 def safely(ctx, key, replay, fn):
@@ -294,7 +351,15 @@ def safely(ctx, key, replay, fn):
     except Exception as e:
         import traceback
         tb = traceback.extract_tb(e.__traceback__)
-        where = next((f'{os.path.basename(t.filename)}:{t.lineno}' for t in reversed(tb) if 'numqi' in t.filename), '')
+        if isinstance(e, HarnessInternal) or not is_impl_exception(e):
+            # raised by the harness itself (private name / layout it relied on changed): that part of the check is skipped, with a note
+            where = next((f'{os.path.basename(t.filename)}:{t.lineno}' for t in reversed(tb) if '/verif/harness/' in t.filename.replace(os.sep, '/')), '')
+            ctx.count('harness-internal-skip')
+            msg = f'harness-internal: {key.replace(":raises", "")} skipped ({type(e).__name__}: {str(e)[:120]} at {where})'
+            if msg not in ctx.notes and len([n for n in ctx.notes if n.startswith('harness-internal')]) < 20:
+                ctx.note(msg)
+            return None
+        where = next((f'{os.path.basename(t.filename)}:{t.lineno}' for t in reversed(tb) if '/numqi/' in t.filename.replace(os.sep, '/')), '')
         ctx.fail(key, f'{type(e).__name__}: {str(e)[:200]} {where}'.strip(), replay)
         return None
 
@@ -371,6 +436,21 @@ def parse_ents(s, N):
     return np.array(v, dtype=np.complex128).reshape(N, N)
 
 
+def gppt_bipartitions(n):
+    """the bipartitions is_generalized_ppt evaluates for n parties, from its PUBLIC return value (return_info=True lists (dim0, dim1, norm))"""
+    import numqi
+    N = 2 ** n
+    info = numqi.entangle.is_generalized_ppt(np.eye(N) / N, (2,) * n, return_info=True)[1]
+    return [(tuple(int(x) for x in d0), tuple(int(x) for x in d1)) for d0, d1, _ in info]
+
+
+def need(rec_list, what):
+    """the capture wrappers intercept the routine through which the implementation tests its matrix; if nothing was intercepted the
+    implementation reaches that routine differently: the capture (harness) is out of date, not the implementation"""
+    if len(rec_list) == 0:
+        raise HarnessInternal(f'nothing captured through {what}')
+
+
 def impl_op(op):
     import numqi
     E = numqi.entangle
@@ -378,9 +458,8 @@ def impl_op(op):
     k = t[1]
     if k == 'gpptlist':
         def f():
-            from numqi.entangle.ppt import _is_generalized_ppt_dim_list
-            return '|'.join(','.join(str(x) for x in d0) + ':' + ','.join(str(x) for x in d1) for d0, d1 in _is_generalized_ppt_dim_list(int(t[2])))
-        return guarded(f)
+            return '|'.join(','.join(str(x) for x in d0) + ':' + ','.join(str(x) for x in d1) for d0, d1 in gppt_bipartitions(int(t[2])))
+        return gskip(f)
     dim = tuple(int(x) for x in t[2].split(';'))
     N = int(np.prod(dim))
     if k in ('ppt', 'red', 'gppt', 'swap', 'ptb'):
@@ -389,20 +468,23 @@ def impl_op(op):
             def f():
                 with capture() as rec:
                     E.is_ppt(rho, dim)
+                need(rec['psd'], 'is_positive_semi_definite')
                 return '|'.join(dump(m) for m, _ in rec['psd'])
-            return guarded(f)
+            return gskip(f)
         if k == 'red':
             def f():
                 with capture() as rec:
                     E.check_reduction_witness(rho, dim)
+                need(rec['psd'], 'is_positive_semi_definite')
                 return '|'.join(dump(m) for m, _ in rec['psd'])
-            return guarded(f)
+            return gskip(f)
         if k == 'gppt':
             def f():
                 with capture() as rec:
                     E.is_generalized_ppt(rho, dim, return_info=True)
+                need(rec['norm'], 'np.linalg.norm(ord="nuc")')
                 return '|'.join(f'{m.shape[0]}:' + dump(m) for m in rec['norm'])
-            return guarded(f)
+            return gskip(f)
         if k == 'swap':
             # the value is recovered exactly from verdicts: the first integer v with not (value > v - 1/2) ... done by bisection
             def f():
@@ -417,7 +499,7 @@ def impl_op(op):
                     else:
                         hi = mid
                 return str(lo)
-            return guarded(f)
+            return gskip(f)
         if k == 'ptb':
             def f():
                 with capture() as rec:
@@ -428,24 +510,24 @@ def impl_op(op):
                         E.get_ppt_boundary(rho, dim, dm_norm=1.0, within_dm=False)
                 b = dump(rec['eigvalsh'][0][0])
                 return a if a == b else f'negativity:{a} ppt_boundary:{b}'
-            return guarded(f)
+            return gskip(f)
     if k in ('vppt', 'vred', 'vgppt', 'vswap'):
         eps = t[3]
         rho = parse_ents(t[4], N)
         kw = {} if eps == 'default' else {('threshold' if k == 'vgppt' else 'eps'): float(Fraction(eps))}
         b = lambda x: '1' if x else '0'
         if k == 'vppt':
-            return guarded(lambda: b(E.is_ppt(rho, dim, **kw)))
+            return gskip(lambda: b(E.is_ppt(rho, dim, **kw)))
         if k == 'vred':
-            return guarded(lambda: b(E.check_reduction_witness(rho, dim, **kw)))
+            return gskip(lambda: b(E.check_reduction_witness(rho, dim, **kw)))
         if k == 'vgppt':
             def f():
                 r0 = E.is_generalized_ppt(rho, dim, **kw)
                 r1 = E.is_generalized_ppt(rho, dim, return_info=True, **kw)[0]
                 return b(r0) if bool(r0) == bool(r1) else 'inconsistent-return_info'
-            return guarded(f)
+            return gskip(f)
         if k == 'vswap':
-            return guarded(lambda: b(E.check_swap_witness(rho, **kw)))
+            return gskip(lambda: b(E.check_swap_witness(rho, **kw)))
     return 'bad-op'
 
 
@@ -644,7 +726,7 @@ def sx_ops(ctx, rng):
             l2 = get_symmetric_extension_index_list(dA, dB, kext, kind='2d')
             l1 = get_symmetric_extension_index_list(dA, dB, kext, kind='1d')
             return '|'.join(','.join(str(int(v)) for v in x) for x in l2) + '#' + '|'.join(','.join(str(int(v)) for v in x) for x in l1)
-        ops.append(f'C05 sxidx {dA} {dB} {kext}'); impl.append(guarded(fi)); ctx.count('sx-index-arrays')
+        ops.append(f'C05 sxidx {dA} {dB} {kext}'); impl.append(gskip(fi)); ctx.count('sx-index-arrays')
         # (b) constraint left-hand sides on a random Gaussian-integer Hermitian "variable" (both index kinds must give the same constraints)
         for rep in range(1 if ctx.quick() and N > 20 else 2):
             G = rand_gint_matrix(rng, N, True, density=1.0 if N <= 16 else 0.3)
@@ -666,7 +748,7 @@ def sx_ops(ctx, rng):
                         return 'permutation-rhs-not-X'
                     outs.append(gi(complex(np.asarray(sides[1][1]).reshape(-1)[0])) + '|' + dump(sides[2][1]) + '|' + '|'.join(dump(s[1]) for s in sides[3:]))
                 return outs[0] if outs[0] == outs[1] else 'index-kinds-differ'
-            ops.append(f'C05 sxcon {dA} {dB} {kext} {ents(G)}'); impl.append(guarded(fc)); ctx.count('sx-constraints')
+            ops.append(f'C05 sxcon {dA} {dB} {kext} {ents(G)}'); impl.append(gskip(fc)); ctx.count('sx-constraints')
         # (c) the separable witness of the model, fed into the captured constraints: they must be satisfied exactly
         nterm = int(rng.integers(1, 4))
         terms = []
@@ -701,7 +783,7 @@ def sx_ops(ctx, rng):
                 elif not np.array_equal(lhs, rhs):
                     return f'constraint-{kk}-violated-by-the-separable-witness'
             return dump(W) + '|' + dump(R)
-        ops.append(f'C05 sxwit {dA} {dB} {kext} {tstr}'); impl.append(guarded(fw)); ctx.count('sx-witness')
+        ops.append(f'C05 sxwit {dA} {dB} {kext} {tstr}'); impl.append(gskip(fw)); ctx.count('sx-witness')
     return ops, impl
 
 
@@ -750,7 +832,7 @@ def irrep_ops(ctx, rng):
             r = SX.get_cvxpy_transpose0213_indexing(n0, n1) if n2 is None else SX.get_cvxpy_transpose0213_indexing(n0, n1, n2, n3)
             return ','.join(str(int(v)) for v in r)
         a2, a3 = (n0, n1) if n2 is None else (n2, n3)
-        out.append((f'C05 idx0213 {n0} {n1} {a2} {a3}', guarded(f), 'exact')); ctx.count('irrep-idx0213')
+        out.append((f'C05 idx0213 {n0} {n1} {a2} {a3}', gskip(f), 'exact')); ctx.count('irrep-idx0213')
     cases = [((2, 2), 2), ((2, 2), 3), ((2, 3), 2), ((3, 2), 2)] if ctx.quick() else [((2, 2), 2), ((2, 2), 3), ((2, 2), 4), ((2, 3), 2), ((3, 2), 2), ((3, 2), 3), ((3, 3), 2)]
     for (dA, dB), kext in cases:
         N = dA * dB
@@ -777,7 +859,7 @@ def irrep_ops(ctx, rng):
                     return 'parameter-shape'
                 lab = labels_of(params[0].value, rho)
                 return lab if lab is not None else 'parameter-is-not-a-rearrangement-of-rho'
-            out.append((f'C05 sxrealign {dA} {dB} {ents(L)}', guarded(f), 'exact')); ctx.count('irrep-sxrealign')
+            out.append((f'C05 sxrealign {dA} {dB} {ents(L)}', gskip(f), 'exact')); ctx.count('irrep-sxrealign')
         # (3) get_ABk_symmetric_extension_boundary: the direction handed to the Parameter and the right-hand side eye/N + beta*direction
         beta0 = 0.75
         params = []
@@ -799,7 +881,7 @@ def irrep_ops(ctx, rng):
             lab = labels_of(R, hat)
             sigma = np.asarray(_FakeProblem.last.cons[-1].args[1].value)
             return lab, R, sigma
-        rb = guarded(fb)
+        rb = gskip(fb)
         if isinstance(rb, str):
             out.append((f'C05 sxrealign {dA} {dB} {ents(L)}', rb, 'exact'))
         else:
@@ -815,7 +897,10 @@ def irrep_ops(ctx, rng):
                 Ps.append(G); return cvxpy.Constant(G)
             def fr():
                 with patched(cvxpy, 'Variable', fake_var2):
-                    cvxP, cons, rdm = SX._ABk_symmetric_extension_setup(dA, dB, kext, boson, ppt)
+                    setup = getattr(SX, '_ABk_symmetric_extension_setup', None)
+                    if setup is None:
+                        raise HarnessInternal('private helper _ABk_symmetric_extension_setup not found')
+                    cvxP, cons, rdm = setup(dA, dB, kext, boson, ppt)
                 coeff, mult = numqi.group.symext.get_symmetric_extension_irrep_coeff(dB, kext)
                 if boson:
                     coeff, mult = coeff[:1], mult[:1]
@@ -828,7 +913,7 @@ def irrep_ops(ctx, rng):
                 blocks = '|'.join(f'{c.shape[0]}:{ents(P)}:{bits_list(c)}:{f2b(float(m))}' for P, c, m in zip(Ps, coeff, mult))
                 pts = [np.asarray(c.args[0].value) for c in cons[len(Ps):npsd]]
                 return blocks, np.asarray(rdm.value).reshape(-1), complex(np.asarray(cons[-1].args[0].value).reshape(-1)[0]), pts, [c.shape[0] for c in coeff]
-            rr = guarded(fr)
+            rr = gskip(fr)
             if isinstance(rr, str):
                 out.append((f'C05 irreprdm {dA} {dB} 1:0,0:0,0:0', rr, 'exact'))
                 continue
@@ -841,6 +926,7 @@ def irrep_ops(ctx, rng):
 
 
 def compare_irrep(ctx, items):
+    items = drop_skipped(ctx, items)
     ops = [o for o, _, _ in items]
     model = common.run_model(ops)
     dev = 0.0
@@ -879,10 +965,11 @@ def compare_measures(ctx):
     for c in c13.structured_concurrences(rng, 20 if ctx.quick() else 200):
         for name, f in (('eof', E.get_eof_2qubit), ('gme', E.get_gme_2qubit)):
             with c13.stub_concurrence(c), np.errstate(all='ignore'):
-                r = guarded(lambda: float(f(np.eye(4) / 4)))
+                r = gskip(lambda: float(f(np.eye(4) / 4)))
             items.append((f'C05 {name} {f2b(c)}', r))
     for ev in [[0, 0, 0, 0], [0, 0, 0, 1], [1e-18, 1e-17, 1e-17, 2e-17], [0.0625] * 4] + [sorted((rng.dirichlet(np.ones(4)) ** 2).tolist()) for _ in range(10)]:
         items.append(('C05 wread ' + ';'.join(str(f2b(x)) for x in ev), c13.read_with_spectrum(ev, lambda: E.get_concurrence_2qubit(np.eye(4) / 4))))
+    items = drop_skipped(ctx, items)
     model = common.run_model([o for o, _ in items])
     dev = 0.0
     for (op, a), b in zip(items, model):
@@ -908,6 +995,8 @@ def correspondence(ctx):
     rng2 = np.random.default_rng(ctx.np_seed + 5)
     sops, simpl = sx_ops(ctx, rng2)
     ops += sops; impl += simpl
+    kept = drop_skipped(ctx, list(zip(ops, impl)))
+    ops, impl = [k[0] for k in kept], [k[1] for k in kept]
     model = common.run_model([model_line(op, T) for op in ops])
     def nontrivial(op, out):
         t = op.split(' ')
@@ -1155,10 +1244,10 @@ def check_index_layer(ctx, rho, dim, tag, replay):
     """the matrices really tested by the criteria are the mathematical operations (exact: they are permutations / sums of entries)"""
     import numqi
     E = numqi.entangle
-    from numqi.entangle.ppt import _is_generalized_ppt_dim_list
     ok = True
     with capture() as rec:
         E.is_ppt(rho, dim)
+    need(rec['psd'], 'is_positive_semi_definite')
     got = [m for m, _ in rec['psd']]
     for i in range(len(dim)):
         if i >= len(got) or not np.array_equal(got[i], oracle_pt(rho, dim, i)):
@@ -1166,14 +1255,16 @@ def check_index_layer(ctx, rho, dim, tag, replay):
             break
     with capture() as rec:
         E.check_reduction_witness(rho, dim)
+    need(rec['psd'], 'is_positive_semi_definite')
     got = [m for m, _ in rec['psd']]
     for i in range(len(dim)):
         if i >= len(got) or np.abs(got[i] - oracle_reduction(rho, dim, i)).max() > 1e-12:
             ctx.fail('check_reduction_witness:index', f'check_reduction_witness tests a matrix that is not 1⊗rho_{i}⊗1-rho for dim={dim} ({tag})', dict(replay, party=i)); ok = False
             break
     with capture() as rec:
-        E.is_generalized_ppt(rho, dim, return_info=True)
-    dl = _is_generalized_ppt_dim_list(len(dim))
+        info = E.is_generalized_ppt(rho, dim, return_info=True)[1]
+    need(rec['norm'], 'np.linalg.norm(ord="nuc")')
+    dl = [(tuple(int(x) for x in d0), tuple(int(x) for x in d1)) for d0, d1, _ in info]     # public return value
     if len(rec['norm']) != len(dl):
         ctx.fail('is_generalized_ppt:index', f'is_generalized_ppt evaluated {len(rec["norm"])} bipartitions, expected {len(dl)}', replay); ok = False
     else:
@@ -1190,7 +1281,7 @@ def check_index_layer(ctx, rho, dim, tag, replay):
             want.add(min((len(s), s), (len(c), c))[1] if len(s) != len(c) else min(s, c))
     have = [tuple(d0) for d0, _ in dl]
     if set(have) != want or len(have) != len(want) or any(tuple(sorted(set(range(2 * n)) - set(d0))) != tuple(d1) for d0, d1 in dl):
-        ctx.fail('is_generalized_ppt:bipartitions', f'_is_generalized_ppt_dim_list({n}) is not the set of all splits of the {2 * n} axes', dict(n=n)); ok = False
+        ctx.fail('is_generalized_ppt:bipartitions', f'the bipartitions evaluated by is_generalized_ppt for {n} parties are not the set of all splits of the {2 * n} axes', dict(n=n)); ok = False
     if len(dim) == 2 and dim[0] == dim[1]:
         d = dim[0]
         v = float(sum(rho[a * d + b, b * d + a] for a in range(d) for b in range(d)).real)
@@ -1373,8 +1464,10 @@ def probe(ctx):
         N = int(np.prod(dim))
         for k in sorted(set([0, N - 1, int(rng.integers(0, N))])):
             rho = np.zeros((N, N), dtype=np.complex128); rho[k, k] = 1
-            r = guarded(lambda: numqi.entangle.is_generalized_ppt(rho, dim, threshold=0))
+            r = gskip(lambda: numqi.entangle.is_generalized_ppt(rho, dim, threshold=0))
             ctx.count('probe-gppt-boundary')
+            if r == SKIP:
+                continue
             if r is not True:
                 ctx.fail('is_generalized_ppt:boundary-rejected', f'is_generalized_ppt(threshold=0) returned {r} for the basis product state |{k}><{k}| (all nuclear norms exactly 1), dim={dim}',
                          dict(rho_desc(rho, dim, 'basis-product'), threshold=0))
@@ -1401,8 +1494,10 @@ def probe(ctx):
                 states.append((numqi.state.Isotropic(d, a).astype(np.complex128), rho_desc(numqi.state.Isotropic(d, a), dim, f'Isotropic({d},{a})'), f'Isotropic({d},{a})', None))
         for rho, dsc, tag, expect in states:
             ctx.count('probe-symext-naive-vs-irrep')
-            r1 = guarded(lambda: bool(numqi.entangle.symext.is_ABk_symmetric_ext_naive(rho, dim, kext)[0]))
-            r2 = guarded(lambda: bool(numqi.entangle.is_ABk_symmetric_ext(rho, dim, kext)))
+            r1 = gskip(lambda: bool(numqi.entangle.symext.is_ABk_symmetric_ext_naive(rho, dim, kext)[0]))
+            r2 = gskip(lambda: bool(numqi.entangle.is_ABk_symmetric_ext(rho, dim, kext)))
+            if SKIP in (r1, r2):
+                continue
             rp = dict(dsc, kext=kext, use_boson=False, use_ppt=False, naive=str(r1), irrep=str(r2))
             if expect is True and r1 is not True:
                 ctx.fail('is_ABk_symmetric_ext_naive:separable-rejected', f'is_ABk_symmetric_ext_naive(kext={kext}) returned {r1} for a separable state, dim={dim} [{tag}]', rp)
@@ -1416,13 +1511,17 @@ def probe(ctx):
         for label, dv in (('list', list(dim)), ('ndarray', np.array(dim)), ('np.int64', tuple(np.int64(x) for x in dim)), ('int32 array', np.array(dim, dtype=np.int32))):
             ctx.count('probe-dim-forms')
             for name in ('is_ppt', 'check_reduction_witness', 'is_generalized_ppt'):
-                r = guarded(lambda: bool(getattr(numqi.entangle, name)(rho, dv)))
+                r = gskip(lambda: bool(getattr(numqi.entangle, name)(rho, dv)))
+                if r == SKIP:
+                    continue
                 if r is not True:
                     ctx.fail(f'{name}:dim-form', f'{name} returned {r} for a separable state when dim is given as {label} {dv!r} (tuple form accepted)', dict(dsc, dim_form=label))
                 else:
                     ctx.probe_ok((name, label, dim))
         for he in (1e-8, 1e-12):
-            r = guarded(lambda: bool(numqi.utils.is_positive_semi_definite(rho, shift=1e-7, hermitian_eps=he)))
+            r = gskip(lambda: bool(numqi.utils.is_positive_semi_definite(rho, shift=1e-7, hermitian_eps=he)))
+            if r == SKIP:
+                continue
             if r is not True:
                 ctx.fail('is_positive_semi_definite:hermitian_eps', f'is_positive_semi_definite(separable rho, shift=1e-7, hermitian_eps={he}) returned {r}', dict(dsc, hermitian_eps=he))
             else:
@@ -1472,9 +1571,11 @@ def probe(ctx):
             if _time.time() - tstart > sdp_budget:
                 break
             rho, desc = make_separable(rng, dim, int(rng.integers(1, 2 * dim[0] * dim[1] + 1)), ['complex', 'basis', 'repeated'][j % 3])
-            r = guarded(lambda: bool(numqi.entangle.is_ABk_symmetric_ext(rho, dim, kext, use_ppt=ppt, use_boson=boson)))
+            r = gskip(lambda: bool(numqi.entangle.is_ABk_symmetric_ext(rho, dim, kext, use_ppt=ppt, use_boson=boson)))
             ctx.count('probe-symext')
             ran += 1
+            if r == SKIP:
+                continue
             if r is not True:
                 ctx.fail('is_ABk_symmetric_ext:separable-rejected', f'is_ABk_symmetric_ext(kext={kext}, use_boson={boson}, use_ppt={ppt}) returned {r} for a separable state, dim={dim}',
                          dict(desc, kext=kext, use_boson=boson, use_ppt=ppt))
